@@ -127,6 +127,12 @@ func HelperMain() {
 	os.Exit(0)
 }
 
+func helperCmdArgs(id int, args ...string) *exec.Cmd {
+	cmd := exec.Command(os.Args[0], args...)
+	cmd.Env = append(os.Environ(), fmt.Sprintf("VERIF_HELPER=s%d", id))
+	return cmd
+}
+
 func helperCmd(id int, fileMode bool) *exec.Cmd {
 	var cmd *exec.Cmd
 	if fileMode {
